@@ -486,6 +486,13 @@ func (db *MultiBucketBackend) PutObject(
 		if !closed {
 			f.Close()
 		}
+
+		// An upload that fails must not leave a partial object (or an object
+		// without its metadata) behind:
+		if err != nil {
+			db.bucketFs.Remove(objectFilePath)
+			removeEmptyDirs(db.bucketFs, bucketName, path.Dir(filepath.ToSlash(objectFilePath)))
+		}
 	}()
 
 	hasher := md5.New()
